@@ -7,8 +7,10 @@ Three independent pieces:
   VALUES('f2s3')` (no uniqueness on j.id: a second execution shows up as a second row) or a table
   `CREATE TABLE IF NOT EXISTS t_f2s3(..)`;
 * the REFERENCE of what a run must do, written from the property statement / DESIGN section 2: the list of
-  statements still to execute given the revision rows of the start state, and the exact sequence of
-  hook points (`rev.before 1`, ...) a run over them has to produce per transaction mode;
+  statements still to execute given the revision rows of the start state (this identifies the statement
+  in flight at a kill by its `stmt.before` occurrence number). The sequence of hook points documented in
+  DESIGN section 2 is computed too, but only as EVIDENCE: how many revision writes a run makes and in which order
+  is not part of C10 (an additional identical write is harmless) - the verdict is on outcomes only;
 * the OFFLINE ORACLE `judge(case, steps)` over the recorded steps (exit status, hook trace, python
   sqlite3 dump before / after each CLI process) of one case: [prefix kills] kill re-run.
 
@@ -250,36 +252,37 @@ class Verdict:
         self.allowed = {}      # stmt id -> number of kills it was in flight at
         self.crash_states = []
         self.in_flight_seen = []
+        self.trace_deviation = None  # evidence only
+        self.model_mismatch = None   # guard on the monitor's model (check broken, not a verdict)
         self.final_state = None
 
     def v(self, key, what, **detail):
         self.violations.append((key, what, detail))
 
 
-def _trace_check(vd, shape, glob, step, exp, complete):
-    """Order invariant. complete: the run must show the whole expected sequence; otherwise a prefix."""
+def _trace_note(vd, shape, glob, step, exp, pend, complete):
+    """NOT a verdict. The number and order of the rev.* / commit.* points of a run is an implementation
+    detail (an extra, identical revision write is harmless); C10 is decided on outcomes only. What is
+    kept: (a) evidence - whether the trace equals the sequence documented in DESIGN section 2, (b) two guards on
+    the monitor itself (check broken, never a violation): hooks not compiled in, and - for the un-killed
+    reference run - a number of executed statements that differs from the monitor's model of what is
+    pending, because the in-flight statement is identified by its `stmt.before` occurrence number."""
     tr = step["trace"]
+    if step["kind"] == "reference" and complete and pend and not tr:
+        vd.broken.append("a run that executed statements produced no hook trace (binary built without -tags verif?)")
+        return
     n = min(len(tr), len(exp))
     bad = next((i for i in range(n) if tr[i] != exp[i]), None)
-    if bad is None:
-        if len(tr) > len(exp):
-            bad = len(exp)
-        elif complete and len(tr) < len(exp):
-            bad = len(tr)
-    if bad is None:
-        return True
-    if not tr and exp:
-        vd.broken.append("a run that executed statements produced no hook trace (binary built without -tags verif?)")
-        return False
-    want = exp[bad].split()[0] if bad < len(exp) else "end"
-    got = tr[bad].split()[0] if bad < len(tr) else "end"
-    if want == got:  # same name, other occurrence index: the counters are off, not the order
-        got += "#"
-    vd.v("trace-order|global=%s|dirs=%s|want=%s|got=%s" % (glob, dirs_sig(shape, glob), want, got),
-         "hook points of a %s run deviate from the documented order at position %d: expected %s, saw %s"
-         % (step["kind"], bad, exp[bad] if bad < len(exp) else "<end>", tr[bad] if bad < len(tr) else "<end>"),
-         expected=exp[max(0, bad - 4):bad + 3], got=tr[max(0, bad - 4):bad + 3], step=step["kind"])
-    return False
+    if bad is None and (len(tr) > len(exp) or (complete and len(tr) < len(exp))):
+        bad = n
+    if bad is not None:
+        vd.trace_deviation = "%s run: position %d documented %s, observed %s" % (
+            step["kind"], bad, exp[bad] if bad < len(exp) else "<end>", tr[bad] if bad < len(tr) else "<end>")
+    if step["kind"] == "reference" and complete:
+        nb = sum(1 for p in tr if p.startswith("stmt.before "))
+        na = sum(1 for p in tr if p.startswith("stmt.after "))
+        if nb != len(pend) or na != len(pend):
+            vd.model_mismatch = "reference run passed stmt.before %d / stmt.after %d times, the directory has %d statements to execute" % (nb, na, len(pend))
 
 
 def _final_check(vd, shape, glob, obs, where):
@@ -427,7 +430,7 @@ def judge(case, steps):
                          state=brief(shape, cur), after_kill=brief(shape, prev))
                 vd.final_state = cur
                 return vd
-            _trace_check(vd, shape, glob, step, exp, complete=True)
+            _trace_note(vd, shape, glob, step, exp, pend, complete=True)
             _final_check(vd, shape, glob, cur, "after the %s" % ("re-run" if step["kind"] == "rerun" else "reference run"))
             vd.final_state = cur
         else:
@@ -444,8 +447,8 @@ def judge(case, steps):
                          "migrate apply exits %d before the kill point %s was reached: %s" % (step["rc"], kill_name(kill), (step["stderr"] or "").strip()[-300:]))
                 return vd
             vd.killed += 1
-            ok = _trace_check(vd, shape, glob, step, exp, complete=False)
-            if kill["via"] == "hook" and ok:
+            _trace_note(vd, shape, glob, step, exp, pend, complete=False)
+            if kill["via"] == "hook":
                 want = kill["at"].replace(":", " ")
                 if not step["trace"] or step["trace"][-1] != want:
                     vd.broken.append("process died by SIGKILL but its last hook point is %r, not %r" % (step["trace"][-1:] or None, want))
